@@ -24,3 +24,5 @@ CFG = dict(
                 "The listed known finding (header-only truncation of a non-empty document) is excluded by construction and re-checked from its pinned input.",
      timeout_quick=600, timeout_thorough=2400)
 CFG["rule"] += ' Added after independently written breaking changes: Source faults are sticky or one-shot (the error comes from ONE Read call, as with bufio.Reader), alone or together with data; the encrypting direction is covered too (a failing plaintext source must fail the ciphertext stream).'
+CFG["fuzz"] = [dict(target="FuzzTamper", seconds=90)]
+CFG["technique"] += " + coverage-guided native fuzzing of the same property in the thorough tier (go test -fuzz over rapid's bit stream)"
